@@ -20,11 +20,23 @@ def sh(cmd, **kw):
     return subprocess.run(cmd, shell=True, stdout=subprocess.PIPE, stderr=subprocess.STDOUT, text=True, **kw)
 
 
+# the checks whose subject overlaps with a property (to see both detection and specificity without running all 20)
+CODEC = ["C01", "C02", "C03", "C04", "C05", "C15", "C16", "C17"]
+SIGNS = ["C08", "C12", "C13", "C14", "C17", "C19"]
+CTL = ["C08", "C09", "C10", "C11", "C17"]
+PAGES = ["C06", "C07", "C08", "C09", "C13"]
+SERIAL = ["C15", "C16", "C17", "C18", "C20"]
+NEIGHBORS = {"C01": CODEC, "C02": CODEC, "C03": CODEC, "C04": CODEC, "C05": CODEC, "C06": PAGES, "C07": PAGES, "C08": SIGNS + ["C09", "C10", "C11"],
+             "C09": CTL, "C10": CTL, "C11": CTL, "C12": SIGNS, "C13": SIGNS, "C14": SIGNS, "C15": SERIAL + ["C01", "C03"], "C16": SERIAL + ["C01", "C03"],
+             "C17": SERIAL + ["C08", "C10"], "C18": SERIAL, "C19": SIGNS + ["C07"], "C20": SERIAL}
+
+
 def main():
     args = sys.argv[1:]
     repo = "/repo"
     tier = "quick"
     allchecks = False
+    neighbors = False
     ids = []
     while args:
         a = args.pop(0)
@@ -34,6 +46,8 @@ def main():
             tier = args.pop(0)
         elif a == "--all-checks":
             allchecks = True
+        elif a == "--neighbors":
+            neighbors = True
         else:
             ids.append(a)
     cargo = os.path.join(ROOT, "harness", "Cargo.toml")
@@ -51,7 +65,7 @@ def main():
             d = os.path.join(seeded, sid)
             meta = json.load(open(os.path.join(d, "meta.json")))
             target = meta["breaks_property"]
-            checks = allprops if allchecks else [target]
+            checks = allprops if allchecks else (NEIGHBORS.get(target, [target]) if neighbors else [target])
             if sh("git -C %s diff --quiet" % repo).returncode != 0:
                 print("repo dirty, stopping")
                 return 2
